@@ -22,34 +22,85 @@ def rule_L6(ctx, func, tracker, rid='L6'):
              'call that produced the bound, in the same order')
     cfg = tracker.cfg
     ev = tracker.all_events()
-    b = [e for nid in sorted(ev) for e in ev[nid] if e.member == 'bounds' and e.op == 'PUSH']
-    p = [e for nid in sorted(ev) for e in ev[nid] if e.member == 'points_bounds'
-         and e.op == 'PUSH']
+    from ..lockstep import local_list_pushes
+
+    def added(member):
+        """records added to `member`: pushes and in-place replacements, in program order"""
+        return [e for nid in sorted(ev) for e in ev[nid] if e.member == member and
+                (e.op == 'PUSH' or (e.op == 'SET' and e.level == 'elem'))]
+
+    def resolve(e):
+        """the expression that produced the record: follows `lst[k]` / a local name into the
+        local list / local it came from"""
+        v = e.payload
+        for _ in range(3):
+            if isinstance(v, ast.Subscript) and isinstance(v.value, ast.Name) and \
+                    isinstance(v.slice, ast.Constant) and isinstance(v.slice.value, int):
+                pl = local_list_pushes(func, v.value.id, e.nid)
+                if pl is not None and -len(pl) <= v.slice.value < len(pl):
+                    v = pl[v.slice.value]
+                    continue
+            if isinstance(v, ast.Name):
+                ds = cfg.defs_at(e.nid, v.id)
+                if len(ds) == 1 and isinstance(cfg.nodes[next(iter(ds))].ast, ast.Assign):
+                    v = cfg.nodes[next(iter(ds))].ast.value
+                    continue
+            break
+        return v
+    b = added('bounds')
+    p = added('points_bounds')
     ctx.require(len(b) == len(p) and b, '%s: %d bound pushes vs %d point-set pushes (L1 reports '
                 'the imbalance)' % (func.qualname, len(b), len(p)))
     for k, (eb, ep) in enumerate(zip(b, p)):
-        call = eb.payload
+        call = resolve(eb)
         ok = False
         why = 'pushed bound is not a compute(...) call'
         if isinstance(call, ast.Call) and isinstance(call.func, ast.Attribute) and \
                 call.func.attr == 'compute' and call.args:
-            nb = cfg.node_of(call).id
+            nb = cfg.node_of(call).id if cfg.has(call) else eb.nid
             kb = ekey(cfg, nb, call.args[0])
             kp = ekey(cfg, ep.nid, ep.payload)
-            ok = kb == kp
+            # the argument may be spelled through a loop variable (points[labels == label] for
+            # label in [0, 1]): compare after substituting the k-th literal of the loop
+            ok = kb == kp or _same_modulo_loop(func, call, ep.payload, k)
             why = 'bound #%d is computed from `%s`, record #%d stores `%s`' % (
                 k, unparse(call.args[0]), k, unparse(ep.payload))
         ctx.ob(rid, '%s:record(%d)' % (func.qualname, k), ok, func.where(eb.ast), why)
     # block flags are computed from the same records (len of the pushed point sets)
-    bl = [e for nid in sorted(ev) for e in ev[nid] if e.member == 'block' and e.op == 'PUSH']
+    bl = added('block')
     ctx.ob(rid, '%s:one-flag-per-record' % func.qualname, len(bl) == len(b), func.where(),
            '%d may-split flags are pushed for %d new ellipsoids' % (len(bl), len(b)))
     for k, e in enumerate(bl):
         txt = unparse(e.payload)
         want = -len(bl) + k
         ok = ('points_bounds[%d]' % want) in txt or (k < len(p) and unparse(p[k].payload) in txt)
+        if not ok and k < len(p):
+            # the flag counts the rows the record selects: same selector expression
+            sels = [unparse(x) for x in ast.walk(p[k].payload) if isinstance(x, ast.Compare)]
+            ok = any(sx in txt for sx in sels)
+            if not ok and isinstance(p[k].payload, ast.Subscript) and \
+                    isinstance(p[k].payload.slice, ast.Name):
+                ok = p[k].payload.slice.id in txt
         ctx.ob(rid, '%s:block(%d)' % (func.qualname, k), ok, func.where(e.ast),
                'may-split flag #%d is derived from record #%d (`%s`)' % (k, k, txt))
+
+
+def _same_modulo_loop(func, call, payload, k):
+    """compute(points[labels == label]) inside `for label in [0, 1]` is, for its k-th
+    iteration, compute(points[labels == k-th literal])."""
+    import copy
+    for lp in walk_no_nested(func.node):
+        if isinstance(lp, ast.For) and isinstance(lp.target, ast.Name) and \
+                isinstance(lp.iter, (ast.List, ast.Tuple)) and any(
+                    x is call for x in ast.walk(lp)) and k < len(lp.iter.elts):
+            class Sub(ast.NodeTransformer):
+                def visit_Name(self, n):
+                    if n.id == lp.target.id:
+                        return copy.deepcopy(lp.iter.elts[k])
+                    return n
+            a = Sub().visit(copy.deepcopy(call.args[0]))
+            return unparse(a) == unparse(payload)
+    return False
 
 
 def rule_T9(ctx, func, tracker, rid='T9'):
@@ -58,7 +109,8 @@ def rule_T9(ctx, func, tracker, rid='T9'):
     cfg = tracker.cfg
     ev = tracker.all_events()
     src = sorted({nid for nid, es in ev.items() for e in es
-                  if e.member == 'bounds' and e.op in STRUCTURAL and e.level == 'list'})
+                  if e.member == 'bounds' and ((e.op in STRUCTURAL and e.level == 'list') or
+                                               (e.op == 'SET' and e.level == 'elem'))})
     resets = set()
     for n in walk_no_nested(func.node):
         if isinstance(n, ast.Call) and dotted(n.func) == '%s.reset' % func.self_name and \
@@ -83,7 +135,8 @@ def rule_S2(ctx, rid='S2'):
              'the volume of the ellipsoid being split (the record at `index`), and the may-split '
              'flag uses the same minimum-size rule wherever it is computed')
     from ..agree import _depends
-    f = ctx.program.func('Union.split')
+    from ..loader import helper_view
+    f = helper_view(ctx.program, ctx.program.func('Union.split'))
     cfg = cfg_of(f)
     n = 0
     # the locals that hold the children: whatever is added to self.bounds
@@ -170,6 +223,10 @@ def rule_S2(ctx, rid='S2'):
                 if isinstance(x, ast.Call) and dotted(x.func) == 'np.delete' and \
                         len(x.args) > 1 and isinstance(x.args[1], ast.Name):
                     idx_names.add(x.args[1].id)
+                if isinstance(x, ast.Assign) and isinstance(x.targets[0], ast.Subscript) and \
+                        dotted(x.targets[0].value) == 'self.bounds' and \
+                        isinstance(x.targets[0].slice, ast.Name):
+                    idx_names.add(x.targets[0].slice.id)
             ok = False
             o = other
             if isinstance(o, ast.Attribute) and o.attr == 'log_v':
@@ -215,18 +272,27 @@ def rule_S3(ctx, rid='S3'):
              'as linear forms in n_points_min)')
     from ..gaps import linear, _Unknown
     from fractions import Fraction
-    f = ctx.program.func('Union.split')
+    from ..loader import helper_view
+    f = helper_view(ctx.program, ctx.program.func('Union.split'))
 
     def sym(e):
         if isinstance(e, ast.Attribute) and e.attr == 'n_points_min':
             return 'm'
         return None
     n = 0
-    # trigger: a comparison of cluster sizes (bincount / sum of labels) with n_points_min
+    # trigger: a comparison of cluster sizes (bincount / sum of labels) with n_points_min,
+    # used as a branch condition (the same comparison stored as a may-split flag is S2's)
+    in_tests = set()
+    for st in walk_no_nested(f.node):
+        if isinstance(st, (ast.If, ast.While, ast.IfExp)):
+            for x in ast.walk(st.test):
+                in_tests.add(id(x))
     for t in walk_no_nested(f.node):
+        if id(t) not in in_tests:
+            continue
         if isinstance(t, ast.Compare) and len(t.ops) == 1 and any(
                 isinstance(x, ast.Call) and dotted(x.func) in ('np.bincount', 'np.sum',
-                                                               'np.count_nonzero', 'len')
+                                                               'np.count_nonzero')
                 for x in ast.walk(t.left)) and any(
                 isinstance(x, ast.Attribute) and x.attr == 'n_points_min'
                 for x in ast.walk(t.comparators[0])) and \
@@ -295,7 +361,8 @@ def run(ctx):
              'change of bounds on every path')
     total = 0
     for q in ('Union.split', 'Union.trim'):
-        f = prog.func(q)
+        from ..loader import helper_view
+        f = helper_view(prog, prog.func(q))
         tr = ExpandingTracker(f, G_UNION.members + ['log_v_all'], arrays={'block', 'log_v_all'})
         n, touched = check_group_paths(ctx, 'L1', f, G_UNION, tracker=tr,
                                        max_loop=1 if ctx.tier == 'quick' else 2)
